@@ -57,6 +57,15 @@ def r04_1(ctx):
                     # both hang off one comparison that involves style.miter_limit, on opposite edges
                     g1 = [(op, a, b2) for op, a, b2, si in normalized_guards(ctx, b, li[0]) if any(x[0] == 'field' and x[2] == 'miter_limit' for x in subterms(a) ) or (b2 and any(x[0] == 'field' and x[2] == 'miter_limit' for x in subterms(b2)))]
                     g2 = [(op, a, b2) for op, a, b2, si in normalized_guards(ctx, b, bv[0]) if any(x[0] == 'field' and x[2] == 'miter_limit' for x in subterms(a)) or (b2 and any(x[0] == 'field' and x[2] == 'miter_limit' for x in subterms(b2)))]
+                    def canon(gs_):
+                        out_ = set()
+                        for op, a, b2 in gs_:
+                            if repr(a) > repr(b2):
+                                op = ('!' if op.startswith('!') else '') + CMP_SWAP[op.lstrip('!')]
+                                a, b2 = b2, a
+                            out_.add((op, a, b2))
+                        return sorted(out_, key=repr)
+                    g1, g2 = canon(g1), canon(g2)
                     ok = len(g1) == 1 and len(g2) == 1 and g1[0][1:] == g2[0][1:] and g1[0][0].lstrip('!') == g2[0][0].lstrip('!') and g1[0][0] != g2[0][0]
                 ctx.check(ok, R, key + '|Miter', b.loc(), 'Miter -> miter_limit test ? line_intersection : bevel', 'the Miter arm does not choose between the miter point (line_intersection) and bevel() on a miter_limit test')
     b = ctx.body(ST + 'cap_line', R)
@@ -304,6 +313,12 @@ def r04_5(ctx):
     if not ctx.check(len(fills) == 1, R, key + '|fill', b.loc(), 'one fill call', 'expected one fill call in stroke'):
         return
     bi, ct = fills[0]
+    # no early-out: whatever the width, the dash array or the transform, stroke() reaches fill() (degenerate strokes are
+    # rejected inside stroke_to_path / dash_path, in user space; thresholds on style.width or on the determinant here are
+    # in the wrong units)
+    okp, pth = an.cfg.must_pass_through(0, set([bi]))
+    ctx.check(okp, R, key + '|fill on every path', call_line(b, bi), 'every returning path of stroke() goes through fill()',
+              'stroke() can return without calling fill() (blocks %s): an early-out on the stroke width, the transform or similar makes some strokes vanish that the pipeline would draw (e.g. a hairline in user units that is several pixels wide under the current transform, or an invertible but strongly zoomed-out transform)' % pth)
     # params: self=1, path=2, src=3, style=4, options=5
     ctx.check(strip_all(ct[2][2]) in (('param', 3), ('deref', ('param', 3))) and strip_all(ct[2][3]) in (('param', 5), ('deref', ('param', 5))), R, key + '|src, options', call_line(b, bi), 'fill(stroked, src, options)', 'stroke does not pass src and options unchanged to fill')
     stroked = strip_all(ct[2][1])
@@ -411,6 +426,11 @@ def cursor_and_start(ctx, b, m):
             if t[0] == 'agg' and (t[2] or '').endswith('Option') and t[3] == 'Some' and c16.payload(t[4][0][1], 'MoveTo', 0):
                 starts.add(d.local)
     starts -= curs
+    # state lives across ops: a temporary that exists only inside the MoveTo arm is not the start record
+    arm_blocks = set()
+    for tgt in m.arms.values():
+        arm_blocks |= arm_region(an.cfg, m.bb, tgt)
+    starts = set(l for l in starts if any(d.bb not in arm_blocks and d.bb != m.bb and d.kind != 'param' for d in an.defs_of.get(l, [])))
     if len(curs) == 1 and len(starts) == 1:
         return list(curs)[0], list(starts)[0]
     return None
@@ -659,18 +679,38 @@ def r09_4(ctx):
     ctx.check(dbl, R, key + '|odd array doubles the period', b.loc(), 'total *= 2 under dash_array.len() % 2 == 1', 'the period is not doubled exactly when the dash array has an odd number of entries')
     rem = False
     nonneg = False
+    rem_defs = []
+    def only_defs(t, pred):
+        # the value t is (a phi of) definitions all satisfying pred
+        t = strip_all(t)
+        if t == ('param', off):
+            return pred(None)
+        if t[0] == 'phi' and t[1] == off:
+            return bool(t[2]) and all(pred(an.defs[i]) for i in t[2])
+        if t[0] == 'rec':
+            return pred(an.defs[t[1]])
+        return False
     for d in an.defs_of.get(off, []):
         if d.kind != 'assign':
             continue
         t = an.def_term(d)
-        if t[0] == 'bin' and t[1] == 'Rem' and (t[2] == ('param', off) or (t[2][0] == 'phi' and t[2][1] == off)):
+        # the reduction is applied to the offset as given (not to an already folded value: `%` keeps the sign, so
+        # folding a negative offset by one period first and reducing afterwards leaves offsets below -period negative)
+        if t[0] == 'bin' and t[1] == 'Rem' and only_defs(t[2], lambda dd: dd is None or dd.kind == 'param'):
             rem = True
+            rem_defs.append(d)
+    for d in an.defs_of.get(off, []):
+        if d.kind != 'assign':
+            continue
+        t = an.def_term(d)
         if t[0] == 'bin' and t[1] == 'Add':
             gs = normalized_guards(ctx, b, d.bb)
             if any(op == 'Lt' and const_val(b2) == 0 and (a[0] in ('phi', 'bin') or a == ('param', off)) for op, a, b2, si in gs):
-                nonneg = True
+                # ... and the fold is applied to the reduced value
+                if (t[2][0] == 'bin' and t[2][1] == 'Rem') or only_defs(t[2], lambda dd: dd is not None and dd in rem_defs):
+                    nonneg = True
     ctx.check(rem, R, key + '|offset reduced modulo the period', b.loc(), 'dash_offset %= total', 'dash_offset is not reduced modulo the period (large offsets would loop for a long time)')
-    ctx.check(nonneg, R, key + '|negative offset wrapped', b.loc(), 'dash_offset += total when negative', 'a negative dash_offset is not wrapped into [0, period)')
+    ctx.check(nonneg, R, key + '|negative offset wrapped', b.loc(), 'dash_offset += total when the reduced offset is negative', 'a negative dash_offset is not wrapped into [0, period): the fold `+= period` must be applied to the result of `% period` (the other order leaves offsets below -period negative)')
 
 
 def r09_5(ctx):
@@ -783,6 +823,62 @@ def r09_1b(ctx):
     ctx.floor(R, 'per-subpath state variables of dash_path', n, 3)
 
 
+
+def _functional_normals(ctx, b, an, cfg, si, true_t, false_t):
+    """(value of s1, value of s2) on the interior branch, read off the arguments of the emission calls that follow the
+    branch, when the two normals are re-bound by value instead of mutated in place; None if not of that form"""
+    def classify(t):
+        t = strip_all(t)
+        if t in (('param', 4),):
+            return 'N1'
+        if t in (('param', 5),):
+            return 'N2'
+        if is_call(t, ST + 'flip') and len(t[2]) == 1:
+            inner = classify(t[2][0])
+            return ('flip', inner) if inner in ('N1', 'N2') else None
+        return None
+    def options(t):
+        """[(defining block, value term)] of a term that is a phi (or a component of a phi of tuples)"""
+        t = strip_all(t)
+        if t[0] == 'phi':
+            return [(an.defs[i].bb, an.def_term(an.defs[i])) for i in t[2] if an.defs[i].kind == 'assign']
+        if t[0] == 'field' and strip_all(t[1])[0] == 'phi':
+            out = []
+            for i in strip_all(t[1])[2]:
+                d = an.defs[i]
+                if d.kind != 'assign':
+                    return []
+                dt_ = strip_all(an.def_term(d))
+                if dt_[0] == 'agg' and dt_[1] == 'tuple':
+                    comp = dict(dt_[4]).get(t[2])
+                    if comp is None:
+                        return []
+                    out.append((d.bb, comp))
+                else:
+                    return []
+            return out
+        return []
+    uses = [ct for bi, d, ct in calls_in(ctx, b) if d == ST + 'bevel']
+    if not uses or false_t is None:
+        return None
+    res = None
+    for ct in uses:
+        vals = []
+        for arg in (ct[2][3], ct[2][4]):
+            opts = options(arg)
+            on_true = [classify(v) for bb, v in opts if cfg.edge_dominates(si, true_t, bb)]
+            on_false = [classify(v) for bb, v in opts if cfg.edge_dominates(si, false_t, bb)]
+            if len(on_true) != 1 or len(on_false) != 1 or len(opts) != 2:
+                return None
+            vals.append((on_true[0], on_false[0]))
+        if (vals[0][1], vals[1][1]) != ('N1', 'N2'):
+            return None           # the exterior branch must leave the normals alone
+        cur = (vals[0][0], vals[1][0])
+        if res is not None and res != cur:
+            return None
+        res = cur
+    return res
+
 def r04_6(ctx):
     """join_line: for an interior angle both normals are flipped AND exchanged (the join is always built on the outer side
     with the same orientation as the segments, so that the NonZero union of the pieces has no holes)"""
@@ -857,6 +953,12 @@ def r04_6(ctx):
             bad = 'branching inside the interior-angle normalisation'
     got = (env.get(4), env.get(5))
     want = (('flip', 'N2'), ('flip', 'N1'))
+    if not (bad is None and got == want):
+        # the same normalisation written as a value: `let (s1, s2) = if interior { (flip(s2), flip(s1)) } else { (s1, s2) }`
+        false_t = [tt for v, tt in t['targets'] if v == '0']
+        fv = _functional_normals(ctx, b, an, cfg, si, true_t, false_t[0] if false_t else None)
+        if fv is not None:
+            got, bad = fv, None
     ctx.check(bad is None and got == want, R, key + '|interior normalisation', b.loc(), 'interior angle: (s1, s2) := (flip(s2), flip(s1))',
               'for an interior angle join_line leaves (s1_normal, s2_normal) = %s%s; it must be (flip(s2), flip(s1)): flipping without exchanging (or the reverse) builds the join with the opposite orientation to the segments, so under the NonZero fill it cancels against overlapping pieces and leaves holes on right-hand turns' % (got, (' (%s)' % bad) if bad else ''))
 
@@ -1015,6 +1117,8 @@ def r04_7(ctx):
             c = ian.term_at(si, len(ib.blocks[si]['st']), t['o'])
             if c[0] == 'bin' and c[1] in ('Gt', 'Lt') and const_val(c[3]) == 0:
                 tests.append((c[1], c[2]))
+            elif c[0] == 'bin' and c[1] in ('Gt', 'Lt') and const_val(c[2]) == 0:
+                tests.append((CMP_SWAP[c[1]], c[3]))        # 0 < X  is  X > 0
     if ctx.check(len(polys) == 1 and len(tests) == 1, R, key + '|found', bb_.loc(), 'bevel polygon and the cross-product test of is_interior_angle',
                  'expected one closed figure in bevel() and one `<cross product> > 0` test in is_interior_angle, found %d and %d (fail closed)' % (len(polys), len(tests))):
         P = shoelace([(va.sp(x), va.sp(y)) for bi, x, y in polys[0]])
@@ -1242,3 +1346,47 @@ def r04_10(ctx):
     outs = at.get(stop, set())
     ctx.check(bool(outs) and all(st[0] == 'S' for st in outs), R, key + '|Close keeps the cursor', b.loc(), 'Close arm: cursor Some on entry => Some on exit (exit states %s)' % sorted(outs),
               'the Close arm can be entered with a current point and left without one (exit states %s), e.g. move_to; close; line_to: the subpath has no segment yet, its start is the move_to point, but `%s` becomes None and the following segment is never stroked (fill and flatten continue from the start point)' % (sorted(outs), b.local_name(cur)))
+
+
+def r04_12(ctx):
+    """the miter-limit test: a miter is drawn iff 2 <= miter_limit^2 * (1 + s1 . s2) for the two (outward) unit normals
+    (miter length / half width = 1 / cos(theta/2) <= miter_limit, with cos(theta) = s1 . s2); decided as a polynomial
+    identity of the tested expression, so any algebraically equal spelling is accepted"""
+    import geomalg
+    R = 'R04.12'
+    b = ctx.body(ST + 'join_line', R)
+    an = ctx.an(b)
+    key = 'stroke::join_line'
+    va = geomalg.VA(ctx)
+    li = [bi for bi, d, ct in calls_in(ctx, b) if d == ST + 'line_intersection']
+    if not ctx.check(len(li) == 1, R, key + '|miter site', b.loc(), 'one line_intersection call', 'expected one line_intersection call in join_line, found %d (fail closed)' % len(li)):
+        return
+    found = []
+    for op, a, b2, si in normalized_guards(ctx, b, li[0]):
+        if b2 is None:
+            continue
+        for lo, hi, o in ((a, b2, op), (b2, a, ('!' if op.startswith('!') else '') + CMP_SWAP[op.lstrip('!')])):
+            if const_val(lo) == 2.0 and o == 'Le':
+                found.append(hi)
+    if not ctx.check(len(found) >= 1, R, key + '|miter test', call_line(b, li[0]), 'the miter point is computed under `2 <= E`', 'the miter point is not computed on the true side of a test `2 <= E` (or `E >= 2`): cannot read the miter-limit test (fail closed)'):
+        return
+    E = va.sp(found[0])
+    lm = [l for l in E.leaves() if isinstance(l, tuple) and l[0] == 'field' and l[2] == 'miter_limit']
+    vx = sorted(set(l[1] for l in E.leaves() if isinstance(l, tuple) and len(l) == 5 and l[0] == 'field' and l[2] in ('x', 'y') and l[3] == 'P'), key=repr)
+    ok = len(lm) == 1 and len(vx) == 2
+    if ok:
+        L = Poly.leaf(lm[0])
+        def c(base, ax):
+            return Poly.leaf(('field', base, ax, 'P', None))
+        dot = c(vx[0], 'x') * c(vx[1], 'x') + c(vx[0], 'y') * c(vx[1], 'y')
+        ok = E == L * L * (Poly.const(1) + dot)
+        # the two vectors are the two normals (parameters 4 and 5, possibly after the interior-angle exchange)
+        roots = set()
+        for vb in vx:
+            r = strip_all(vb)
+            while r[0] in ('field', 'deref', 'ref'):
+                r = strip_all(r[1])
+            roots.add(r[1] if r[0] in ('param', 'mem', 'phi') else None)
+        ok = ok and (roots == {4, 5} or all(isinstance(x, int) for x in roots))
+    ctx.check(ok, R, key + '|miter limit identity', call_line(b, li[0]), 'tested expression == miter_limit^2 * (1 + s1 . s2)',
+              'the miter test compares 2 with %s, which is not miter_limit^2 * (1 + s1 . s2): e.g. with the sign of the dot product lost the test becomes miter_limit^2 * (1 - cos) — right only at right angles — so sharp corners are never bevelled (a long spike is painted outside the stroke) and shallow ones lose their miter' % E.show(b)[:300])
